@@ -94,6 +94,18 @@ Qed.
 Lemma eff_align_with s a o : eff_align (with_offset (with_addr s a) o) = eff_align s.
 Proof. reflexivity. Qed.
 
+(* a member as the first pass leaves it: address recorded *)
+Definition placed_member (s : section) : Prop :=
+  s_index s <> 0 /\ sh_type s <> SHT_NULL /\ sh_type s <> SHT_NOBITS /\ s_addr_set s = true /\ sh_size s <> 0 /\
+  N.land (sh_flags s) SHF_ALLOC = SHF_ALLOC /\ N.land (sh_flags s) SHF_TLS <> SHF_TLS /\ sh_offset s < 2 ^ xw (s_cls s).
+
+(* the end of the last member *)
+Fixpoint mend (secs' : list section) (idxs : list N) (lo : N) : N :=
+  match idxs with
+  | [] => lo
+  | i :: t => match nth_optN secs' i with Some s => mend secs' t (sh_offset s + sh_size s) | None => lo end
+  end.
+
 Theorem write_segment_data_auto g seg_start bound : forall idxs ms w,
   NoDup idxs -> Forall2 (fun i s => nth_optN (ws_secs w) i = Some s) idxs ms ->
   Forall auto_member ms -> Forall (fun s => bound <= 2 ^ xw (s_cls s)) ms ->
@@ -107,10 +119,12 @@ Theorem write_segment_data_auto g seg_start bound : forall idxs ms w,
     ws_pos w' <= ws_pos w + mbudget ms /\
     mchain g seg_start (ws_secs w') idxs (ws_pos w) (ws_pos w') /\
     (forall j, ~ In j idxs -> nth_optN (ws_secs w') j = nth_optN (ws_secs w) j) /\
-    lenN (ws_secs w') = lenN (ws_secs w).
+    lenN (ws_secs w') = lenN (ws_secs w) /\
+    ws_pos w' = mend (ws_secs w') idxs (ws_pos w) /\
+    (Forall (fun s => sh_size s <> 0) ms -> forall i, In i idxs -> exists s, nth_optN (ws_secs w') i = Some s /\ placed_member s).
 Proof.
   induction idxs as [|i t IH]; intros ms w Hnd HF Hauto Hcls Hgen Hb64 Hpos Hmem Hbud.
-  - inversion HF; subst. cbn [write_segment_data mchain mbudget fold_right]. exists w. repeat split; auto; lia.
+  - inversion HF; subst. cbn [write_segment_data mchain mbudget fold_right mend]. exists w. repeat split; auto; try lia. intros _ i [].
   - inversion HF as [|? sec ? mt Hsec HFt]; subst. inversion Hauto as [|? ? Ha Hat]; subst.
     inversion Hcls as [|? ? Hc Hct]; subst. inversion Hnd as [|? ? Hni Hndt]; subst.
     cbn [mbudget fold_right] in Hbud. fold (mbudget mt) in Hbud.
@@ -123,7 +137,7 @@ Proof.
     set (sec' := with_offset (with_addr sec (p_vaddr g + ws_pos w + pad - seg_start)) off) in *.
     set (w1 := mkW (updN (ws_secs w) i sec') (gen_set (ws_gen w) i) (off + sh_size sec) (ws_mem w + (sh_size sec + pad)) (ws_fsz w + (sh_size sec + pad))).
     assert (Hi_lt : i < lenN (ws_secs w)) by (now apply nth_optN_lt in Hsec).
-    destruct (IH mt w1 Hndt) as (w' & -> & P1 & P2 & P3 & P4 & P5 & P6 & P7).
+    destruct (IH mt w1 Hndt) as (w' & -> & P1 & P2 & P3 & P4 & P5 & P6 & P7 & P8 & P9).
     + (* the remaining members are still where they were *)
       clear - HFt Hni. revert Hni. induction HFt as [|j s jt st Hj Hrest IHF]; intros Hni; constructor.
       * cbn [ws_secs w1]. rewrite nth_optN_updN_other; [exact Hj|]. intro; subst; apply Hni; now left.
@@ -146,7 +160,18 @@ Proof.
         rewrite Ez. exact P5.
       * intros j Hj. rewrite P6 by (intro; apply Hj; now right). cbn [ws_secs w1].
         apply nth_optN_updN_other. intro; subst; apply Hj; now left.
-      * rewrite P7. cbn [ws_secs w1]. apply lenN_updN.
+      * split; [rewrite P7; cbn [ws_secs w1]; apply lenN_updN|].
+        assert (Hfin : nth_optN (ws_secs w') i = Some sec').
+        { rewrite (P6 i Hni). cbn [ws_secs w1]. now apply nth_optN_updN_same. }
+        split.
+        -- cbn [mend]. rewrite Hfin, Eo, Ez. exact P8.
+        -- intros Hnz j [<-|Hj].
+           ++ exists sec'. split; [exact Hfin|]. inversion Hnz as [|? ? Hz1 Hz2]; subst.
+              destruct Ha as (A1 & A2 & A3 & A4 & A5 & A6).
+              unfold placed_member. rewrite Eo. unfold sec'.
+              cbn [s_index sh_type s_addr_set sh_size sh_flags s_cls with_offset with_addr].
+              repeat split; try assumption; try reflexivity. unfold off. lia.
+           ++ inversion Hnz as [|? ? Hz1 Hz2]; subst. exact (P9 Hz2 j Hj).
 Qed.
 
 (* ---------- where the segment starts: file offset congruent to the address ---------- *)
@@ -202,7 +227,12 @@ Theorem layout_one_segment_auto h g secs gen pos bound ms :
     p_offset g' = seg_start /\ p_vaddr g' = p_vaddr g /\
     p_filesz g' = pos' - seg_start /\ p_filesz g' <= p_memsz g' /\
     mchain g seg_start secs' idxs seg_start pos' /\               (* members: aligned, in order, file distance = memory distance *)
-    (forall j, ~ In j idxs -> nth_optN secs' j = nth_optN secs j) /\ lenN secs' = lenN secs.
+    (forall j, ~ In j idxs -> nth_optN secs' j = nth_optN secs j) /\ lenN secs' = lenN secs /\
+    (g_sections g' = g_sections g /\ g_offset_set g' = true /\ p_align g' = p_align g /\ p_type g' = p_type g /\ g_cls g' = g_cls g) /\
+    pos' = mend secs' idxs seg_start /\
+    (Forall (fun s => sh_size s <> 0) ms -> forall i, In i idxs -> exists s, nth_optN secs' i = Some s /\ placed_member s) /\
+    seg_start = add64 pos ((add64 (p_align g) (sub64 (p_vaddr g mod align) (pos mod align))) mod align) /\
+    pos' <= seg_start + mbudget ms.
 Proof.
   cbv zeta. intros Hlen Hne Hos Hty Hnd HF Hauto Hcls Hgen Hb64 Hbg Hal Hbud.
   set (align := if 0 <? p_align g then p_align g else 1) in *.
@@ -227,20 +257,22 @@ Proof.
   set (seg_start := add64 pos (add64 (p_align g) (sub64 (p_vaddr g mod align) (pos mod align)) mod align)) in *.
   cbn [bind].
   destruct (write_segment_data_auto g seg_start bound (i0 :: t0) ms (mkW secs gen seg_start 0 0) Hnd HF Hauto Hcls Hgen Hb64)
-    as (w' & -> & P1 & P2 & P3 & P4 & P5 & P6 & P7); [cbn; lia|reflexivity|cbn [ws_pos]; lia|].
-  cbn [bind ws_pos ws_secs] in *. clearbody seg_start.
+    as (w' & -> & P1 & P2 & P3 & P4 & P5 & P6 & P7 & P8 & P9); [cbn; lia|reflexivity|cbn [ws_pos]; lia|].
+  cbn [bind ws_pos ws_secs] in *.
+  assert (Hdef : seg_start = add64 pos ((add64 (p_align g) (sub64 (p_vaddr g mod align) (pos mod align))) mod align)) by reflexivity.
+  clearbody seg_start.
   assert (Hfs : ws_fsz w' = ws_pos w' - seg_start) by lia.
   assert (Hfb : ws_fsz w' < 2 ^ xw (g_cls g)) by lia.
   assert (W : forall v, v < bound -> wrap (xw (g_cls g)) v = v) by (intros v Hv; unfold wrap; apply N.mod_small; lia).
   destruct (N.ltb_spec (p_memsz (seg_set g GFilesz (ws_fsz w'))) (ws_mem w')) as [Hlt|Hge].
   - eexists _, _, _, _, seg_start. split; [reflexivity|].
     split; [exact S1|]. split; [exact S2|]. split; [exact S3|].
-    cbn [p_offset p_vaddr p_filesz p_memsz seg_set g_cls].
-    rewrite !W by lia. repeat split; try lia; assumption.
+    cbn [p_offset p_vaddr p_filesz p_memsz seg_set g_cls g_sections g_offset_set p_align p_type].
+    rewrite !W by lia. repeat split; try lia; try assumption; try reflexivity.
   - eexists _, _, _, _, seg_start. split; [reflexivity|].
     split; [exact S1|]. split; [exact S2|]. split; [exact S3|].
-    cbn [p_offset p_vaddr p_filesz p_memsz seg_set g_cls] in *.
-    rewrite !W in * by lia. repeat split; try lia; assumption.
+    cbn [p_offset p_vaddr p_filesz p_memsz seg_set g_cls g_sections g_offset_set p_align p_type] in *.
+    rewrite !W in * by lia. repeat split; try lia; try assumption; try reflexivity.
 Qed.
 
 Lemma mchain_bounds g ss secs' idxs : forall lo hi, mchain g ss secs' idxs lo hi -> lo <= hi.
@@ -259,3 +291,156 @@ Proof.
   - exists s. pose proof (mchain_bounds _ _ _ _ _ _ H6). repeat split; try assumption; lia.
   - destruct (IH _ _ i H6 Hin) as (s' & A1 & A2 & A3 & A4 & A5 & A6). exists s'. repeat split; try assumption; lia.
 Qed.
+
+(* ---------- the second pass over a segment that has been laid out (C06) ---------- *)
+Lemma write_seg_step_placed g seg_start w index sec :
+  nth_optN (ws_secs w) index = Some sec -> placed_member sec -> nth_optN (ws_gen w) index = Some false ->
+  seg_start <= ws_pos w -> ws_pos w <= sh_offset sec -> p_vaddr g <= sh_addr sec ->
+  sh_addr sec - p_vaddr g = sh_offset sec - seg_start ->
+  sh_addr sec < 2 ^ 64 -> sh_offset sec + sh_size sec < 2 ^ 64 ->
+  ws_mem w + sh_offset sec + sh_size sec < 2 ^ 64 -> ws_fsz w + sh_offset sec + sh_size sec < 2 ^ 64 ->
+  write_seg_step g seg_start w index =
+    Ok (Some (mkW (updN (ws_secs w) index sec) (gen_set (ws_gen w) index) (sh_offset sec + sh_size sec)
+                  (ws_mem w + (sh_size sec + (sh_offset sec - ws_pos w))) (ws_fsz w + (sh_size sec + (sh_offset sec - ws_pos w))))).
+Proof.
+  intros Hn (Hi & Ht1 & Ht2 & Ha & Hz & Hal & Htls & Ho) Hg Hss Hle Hva Hd Ha64 Hb1 Hb2 Hb3.
+  unfold write_seg_step. rewrite Hn.
+  apply N.eqb_neq in Ht1. rewrite Ht1. unfold gen_get. rewrite Hg. cbn [bind]. rewrite Ha.
+  apply N.eqb_neq in Ht2. rewrite Ht2. apply N.eqb_neq in Hz. rewrite Hz. cbn [negb andb].
+  rewrite (sub64_id (sh_addr sec) (p_vaddr g)) by lia. rewrite (sub64_id (ws_pos w) seg_start) by lia.
+  destruct (N.ltb_spec (sh_addr sec - p_vaddr g) (ws_pos w - seg_start)); [lia|].
+  rewrite (sub64_id (sh_addr sec - p_vaddr g) (ws_pos w - seg_start)) by lia. cbn [bind].
+  assert (Eal : (N.land (sh_flags sec) SHF_ALLOC =? SHF_ALLOC) = true) by (apply N.eqb_eq; exact Hal).
+  assert (Etl : (N.land (sh_flags sec) SHF_TLS =? SHF_TLS) = false) by (apply N.eqb_neq; exact Htls).
+  rewrite Eal, Etl. cbn [andb negb].
+  set (pad := sh_addr sec - p_vaddr g - (ws_pos w - seg_start)).
+  assert (Hpad : pad = sh_offset sec - ws_pos w) by (unfold pad; lia). clearbody pad. subst pad.
+  assert (P1 : add64 (ws_pos w) (sh_offset sec - ws_pos w) = sh_offset sec) by (rewrite add64_id by lia; lia).
+  rewrite !P1.
+  assert (Ei : (s_index sec =? 0) = false) by (apply N.eqb_neq; exact Hi). rewrite Ei.
+  assert (Eo : with_offset sec (sh_offset sec) = sec).
+  { destruct sec; cbn in *. unfold with_offset; cbn. f_equal. unfold wrap. now apply N.mod_small. }
+  rewrite Eo, Ht2. cbn [negb].
+  rewrite (add64_id (sh_size sec) (sh_offset sec - ws_pos w)) by lia.
+  rewrite (add64_id (ws_mem w)) by lia. rewrite (add64_id (ws_fsz w)) by lia. rewrite (add64_id (sh_offset sec)) by lia. reflexivity.
+Qed.
+
+Lemma updN_same_value {A} (l : list A) i x : nth_optN l i = Some x -> updN l i x = l.
+Proof.
+  revert i; induction l as [|y t IH]; intros i H; cbn [nth_optN updN] in *; [reflexivity|].
+  destruct (i =? 0); [now injection H as ->|]. f_equal. now apply IH.
+Qed.
+
+Theorem write_segment_data_placed g seg_start : forall idxs w,
+  NoDup idxs ->
+  (forall i, In i idxs -> nth_optN (ws_gen w) i = Some false) ->
+  (forall i, In i idxs -> exists s, nth_optN (ws_secs w) i = Some s /\ placed_member s) ->
+  mchain g seg_start (ws_secs w) idxs (ws_pos w) (mend (ws_secs w) idxs (ws_pos w)) ->
+  seg_start <= ws_pos w -> ws_mem w = ws_fsz w -> ws_pos w = seg_start + ws_fsz w ->
+  p_vaddr g + mend (ws_secs w) idxs (ws_pos w) < 2 ^ 63 ->
+  exists gen',
+    write_segment_data g seg_start idxs w =
+      Ok (mkW (ws_secs w) gen' (mend (ws_secs w) idxs (ws_pos w))
+              (mend (ws_secs w) idxs (ws_pos w) - seg_start) (mend (ws_secs w) idxs (ws_pos w) - seg_start), true).
+Proof.
+  induction idxs as [|i t IH]; intros w Hnd Hgen Hpl Hch Hss Hmf Hpf Hb.
+  - cbn [write_segment_data mend]. exists (ws_gen w). destruct w; cbn in *. subst. repeat f_equal; lia.
+  - inversion Hnd as [|? ? Hni Hndt]; subst. cbn [mchain mend] in Hch, Hb.
+    destruct Hch as (s & Hs & C1 & C2 & C3 & C4 & C5). rewrite Hs in Hb, C5.
+    destruct (Hpl i (or_introl eq_refl)) as (s' & Hs' & Hp). rewrite Hs in Hs'. injection Hs' as <-.
+    pose proof (mchain_bounds _ _ _ _ _ _ C5) as Hend.
+    cbn [write_segment_data mend]. rewrite Hs.
+    rewrite (write_seg_step_placed g seg_start w i s Hs Hp (Hgen i (or_introl eq_refl))); try lia.
+    cbn [bind]. rewrite (updN_same_value _ _ _ Hs).
+    set (w1 := mkW (ws_secs w) (gen_set (ws_gen w) i) (sh_offset s + sh_size s)
+                   (ws_mem w + (sh_size s + (sh_offset s - ws_pos w))) (ws_fsz w + (sh_size s + (sh_offset s - ws_pos w)))).
+    destruct (IH w1 Hndt) as (gen' & ->).
+    + intros j Hj. cbn [ws_gen w1]. unfold gen_set. rewrite nth_optN_updN_other; [apply Hgen; now right|]. intro; subst; contradiction.
+    + intros j Hj. apply Hpl. now right.
+    + exact C5.
+    + cbn [ws_pos w1]. lia.
+    + cbn [ws_mem ws_fsz w1]. lia.
+    + cbn [ws_pos ws_fsz w1]. lia.
+    + cbn [ws_pos ws_secs w1]. exact Hb.
+    + exists gen'. reflexivity.
+Qed.
+
+Lemma mchain_same_vaddr g g' ss secs' idxs : p_vaddr g' = p_vaddr g ->
+  forall lo hi, mchain g ss secs' idxs lo hi -> mchain g' ss secs' idxs lo hi.
+Proof.
+  intros Hv. induction idxs as [|i t IH]; intros lo hi H; cbn [mchain] in *; [exact H|].
+  destruct H as (s & H1 & H2 & H3 & H4 & H5 & H6). exists s. rewrite Hv. repeat split; try assumption. now apply IH.
+Qed.
+
+Lemma mchain_mend_le g ss secs' idxs : forall lo hi, mchain g ss secs' idxs lo hi -> mend secs' idxs lo <= hi /\ lo <= mend secs' idxs lo.
+Proof.
+  induction idxs as [|i t IH]; intros lo hi H; cbn [mchain mend] in *; [lia|].
+  destruct H as (s & H1 & H2 & _ & _ & _ & H6). rewrite H1. destruct (IH _ _ H6). lia.
+Qed.
+
+Lemma mchain_tighten g ss secs' idxs : forall lo hi, mchain g ss secs' idxs lo hi -> mchain g ss secs' idxs lo (mend secs' idxs lo).
+Proof.
+  induction idxs as [|i t IH]; intros lo hi H; cbn [mchain mend] in *; [lia|].
+  destruct H as (s & H1 & H2 & H3 & H4 & H5 & H6). exists s. rewrite H1. repeat split; try assumption. now apply (IH _ hi).
+Qed.
+
+Lemma seg_set_noop g :
+  g_offset_set g = true -> p_filesz g < 2 ^ xw (g_cls g) -> p_offset g < 2 ^ xw (g_cls g) ->
+  seg_set (seg_set g GFilesz (p_filesz g)) GOffset (p_offset g) = g.
+Proof.
+  intros H1 H2 H3. destruct g; cbn in *. subst. unfold seg_set; cbn. unfold wrap. rewrite !N.mod_small by assumption. reflexivity.
+Qed.
+
+(* C06 for such a segment: laying it out again — fresh "generated" flags, same
+   starting position — changes nothing *)
+Theorem layout_one_segment_again h g secs gen pos bound ms g' secs' gen' pos' :
+  let idxs := g_sections g in
+  let align := if 0 <? p_align g then p_align g else 1 in
+  lenN idxs < 2 ^ 16 -> idxs <> [] ->
+  g_offset_set g = false -> p_type g <> PT_PHDR ->
+  NoDup idxs -> Forall2 (fun i s => nth_optN secs i = Some s) idxs ms ->
+  Forall auto_member ms -> Forall (fun s => bound <= 2 ^ xw (s_cls s)) ms -> Forall (fun s => sh_size s <> 0) ms ->
+  (forall i, In i idxs -> nth_optN gen i = Some false) ->
+  bound <= 2 ^ 63 -> bound <= 2 ^ xw (g_cls g) -> p_align g < 2 ^ 63 ->
+  p_vaddr g + pos + align + mbudget ms < bound -> 0 < pos ->
+  layout_one_segment h g secs gen pos = Ok (g', secs', gen', pos', true) ->
+  exists gen'', layout_one_segment h g' secs' gen pos = Ok (g', secs', gen'', pos', true).
+Proof.
+  cbv zeta. intros Hlen Hne Hos Hty Hnd HF Hauto Hcls Hnz Hgen Hb63 Hbg Hal Hbud Hpos E.
+  destruct (layout_one_segment_auto h g secs gen pos bound ms Hlen Hne Hos Hty Hnd HF Hauto Hcls Hgen ltac:(lia) Hbg Hal Hbud)
+    as (g1 & secs1 & gen1 & pos1 & seg_start & E1 & S1 & S2 & S3 & O1 & V1 & F1 & M1 & Ch & Fr & Ln & (G1 & G2 & G3 & G4 & G5) & Pe & Pl & Hdef & Hpb).
+  cbv zeta in *. rewrite E in E1. injection E1 as <- <- <- <-.
+  set (align := if 0 <? p_align g then p_align g else 1) in *.
+  unfold layout_one_segment.
+  assert (Hn : seg_sections_num g' = lenN (g_sections g)).
+  { unfold seg_sections_num. rewrite G1. unfold wrap16, wrap. apply N.mod_small. exact Hlen. }
+  rewrite Hn, G1, firstnN_all by lia.
+  assert (E0 : ((p_type g' =? PT_PHDR) && (lenN (g_sections g) =? 0)) = false).
+  { destruct (g_sections g); [contradiction|]. rewrite lenN_cons. destruct (N.eqb_spec (1 + lenN l) 0); [lia|]. now rewrite andb_false_r. }
+  rewrite E0, G2, O1.
+  destruct (N.eqb_spec seg_start 0); [lia|]. cbn [andb].
+  destruct (N.ltb_spec 0 (lenN (g_sections g))) as [_|Hz]; [|destruct (g_sections g); [contradiction|rewrite lenN_cons in Hz; lia]].
+  destruct (g_sections g) as [|i0 t0] eqn:Eg; [contradiction|].
+  assert (Hfirst : seg_section_at g' 0 = i0) by (unfold seg_section_at; rewrite G1; reflexivity).
+  rewrite Hfirst. unfold gen_get at 1. rewrite (Hgen i0 (or_introl eq_refl)). cbn [bind negb].
+  rewrite G3, V1. fold align.
+  rewrite <- Hdef. cbn [bind].
+  (* the members are where the first pass put them *)
+  specialize (Pl Hnz).
+  assert (Hb : p_vaddr g' + mend secs' (i0 :: t0) seg_start < 2 ^ 63).
+  { rewrite V1, <- Pe. lia. }
+  destruct (write_segment_data_placed g' seg_start (i0 :: t0) (mkW secs' gen seg_start 0 0) Hnd) as (gen'' & ->).
+  { exact Hgen. } { exact Pl. }
+  { cbn [ws_secs ws_pos]. apply mchain_tighten with (hi := pos'). now apply (mchain_same_vaddr g g'). }
+  { cbn; lia. } { reflexivity. } { cbn; lia. } { exact Hb. }
+  cbn [bind ws_pos ws_secs ws_fsz ws_mem]. rewrite <- Pe.
+  rewrite <- F1.
+  destruct (N.ltb_spec (p_memsz (seg_set g' GFilesz (p_filesz g'))) (p_filesz g')) as [Hlt|Hge].
+  { cbn [p_memsz seg_set] in Hlt. lia. }
+  replace (seg_set (seg_set g' GFilesz (p_filesz g')) GOffset seg_start) with g'.
+  { exists gen''. reflexivity. }
+  symmetry. rewrite <- O1. apply seg_set_noop; [exact G2| |].
+  - rewrite G5, F1. pose proof (mchain_bounds _ _ _ _ _ _ Ch). lia.
+  - rewrite G5, O1. lia.
+Qed.
+
